@@ -13,14 +13,15 @@ EXPLANATION = (
     "a strict-majority comparison of the number of nodes with `voted` set against self.size; (R27d) ClusterState::Leader is "
     "constructed only in vote_received and in `new` under size == 1, and self.state is only ever written with a literal "
     "ClusterState variant; (R27e) a granted vote is durable: the grant path raises self.term to request.term or records the "
-    "vote in a field other than the scratch variable `state`.")
+    "vote in a field other than the scratch variable `state`; (R27f) a vote response is counted only for the election it was "
+    "requested in: the Leader transition (or every call of vote_received) is guarded by request.term == self.term.")
 DECIDED = ["R27a grant dominated by the four validators (DOM, cut-set over `?` Ok edges)",
            "R27b rejection tables of validate_vote_state / validate_term_for_vote (TABLE, per-variant specialised CFG)",
            "R27c strict majority before becoming candidate / leader (TABLE of accepted comparison forms + DOM)",
            "R27d who constructs ClusterState::Leader and who writes Cluster::state (WHO)",
-           "R27e a granted vote is durable (MUST over the grant path)"]
-UNDECIDED = ["the election protocol itself over message schedules (needs execution; see findings/server/F17)",
-             "that vote responses are counted only for the election (term) they were requested in"]
+           "R27e a granted vote is durable (MUST over the grant path)",
+           "R27f votes are counted only for the election they were requested in (DOM over the term-equality edge)"]
+UNDECIDED = ["the election protocol itself over message schedules (needs execution; see findings/server/F17, F20)"]
 
 CL = "agdb_server::raft::Cluster::"
 STATE = "agdb_server::raft::ClusterState"
@@ -68,9 +69,18 @@ class Sym:
             else:
                 if self.b.d.get("coroutine") and pb.d["argc"] > n:
                     # `async fn`: upvar n is parameter n+1 of the thin fn body
-                    out = pb.local_name(n + 1) or out
+                    out = ps.argname(n + 1)
         self._up[n] = out
         return out
+
+    def argname(self, l):
+        """Parameters of the Raft code are named by their type, so that renaming a parameter changes nothing."""
+        ty = self.b.local_ty(l)
+        for pat, nm in (("agdb_server::raft::Cluster<", "self"), ("agdb_server::raft::Request<", "request"),
+                        ("agdb_server::raft::Log<", "log")):
+            if ty.lstrip("&").replace("mut ", "").startswith(pat):
+                return nm
+        return self.b.local_name(l) or "arg%d" % l
 
     def local(self, l, d):
         b = self.b
@@ -79,7 +89,7 @@ class Sym:
         if 1 <= l <= b.d["argc"]:
             if b.parent and l == 1:
                 return "<closure-env>"
-            return b.local_name(l) or "arg%d" % l
+            return self.argname(l)
         ds = [x for x in self.defs.get(l, []) if x[0] != "partial"]
         name = b.local_name(l)
         if len(ds) != 1:
@@ -313,6 +323,12 @@ def rule_grant_dominated(ctx, rule, validators, fn="vote_request", effects=("vot
     grant = {"ok": okb}
     if "voted" in effects:
         grant["voted"] = [bi for bb_, bi, kind, var in state_writes(fa) if bb_ is b and kind == "assign" and var == "Voted"]
+    if "voted" in effects:
+        vals = sorted({val for bi, f_, val in self_writes(fa, b, depth=2) if f_ == "state"})
+        ctx.ob(rule, "%s:voted-term" % fn, vals == ["ClusterState::Voted{request.term}"],
+               "the grant records Voted(request.term), the value validate_vote_state compares later requests with"
+               if vals == ["ClusterState::Voted{request.term}"] else
+               "%s writes self.state = %s (expected exactly Voted(request.term))" % (fn, vals), b.where)
     for v in validators:
         ctx.anchor(rule, CL + v)
         sites, edges = validator_cut(b, v)
@@ -427,9 +443,11 @@ def rule_who_leader(ctx, rule="R27d"):
                        f, " without the size == 1 guard" if f in allowed else " (allowed: vote_received, new under size == 1)"),
                    b.loc(bi), key="%s|%s|%s|constructs-Leader" % (ctx.pid, rule, f))
         elif kind == "assign":
-            ctx.ob(rule, "state-write:%s:%s" % (f, var), var is not None,
-                   "self.state = ClusterState::%s" % var if var else
-                   "`%s` writes Cluster::state with a value that is not a literal ClusterState variant (cannot be classified)" % f,
+            okw = var is not None and (var != "Leader" or f == CL + "vote_received")
+            ctx.ob(rule, "state-write:%s:%s" % (f, var), okw,
+                   "self.state = ClusterState::%s" % var if okw else
+                   ("`%s` sets self.state = Leader (allowed only in vote_received, behind the majority test)" % f if var else
+                    "`%s` writes Cluster::state with a value that is not a literal ClusterState variant (cannot be classified)" % f),
                    b.loc(bi), key="%s|%s|%s|state-write-%s" % (ctx.pid, rule, f, var))
         elif kind == "mut-borrow":
             ctx.ob(rule, "state-borrow:%s" % f, False, "`%s` takes `&mut self.state` (writes through it cannot be classified)" % f,
@@ -440,7 +458,7 @@ def rule_who_leader(ctx, rule="R27d"):
     ctx.floor(rule, "constructions of ClusterState::Leader", n, 2)
 
 
-def self_writes(fa, b, sy=None, depth=0, argmap=None):
+def self_writes(fa, b, sy=None, depth=0):
     """Writes to fields of the Cluster through `self` in body b, following calls of Cluster methods that receive
     `self` mutably (two levels). Returns [(bb in b, field, value term)] with callee parameters renamed to the
     caller's terms where they are passed through."""
@@ -519,6 +537,8 @@ def rule_vote_durable(ctx, rule="R27e"):
     written = sorted({"self.%s = %s" % (f, v) for bi, f, v in ws})
     ctx.ob(rule, "vote_request:vote-durable", ok,
            "every grant path records the vote durably: %s" % sorted({d for bi, d in durable}) if ok else
+           ("the durable write %s is not on every grant path (%s); otherwise " % (sorted({d for bi, d in durable}), cfg.path_str(b, p))
+            if durable and p else "") +
            "the vote grant writes only %s: the vote lives in the scratch variable `state`, which process() replaces by "
            "Election after term_timeout while self.term is still below the voted term; validate_vote_state / "
            "validate_term_for_vote then accept a second candidate of the same term (two leaders in one term, F17). "
@@ -527,10 +547,42 @@ def rule_vote_durable(ctx, rule="R27e"):
            b.where, key="%s|%s|%s|vote-not-durable" % (ctx.pid, rule, CL + "vote_request"))
 
 
+def rule_votes_of_this_election(ctx, rule="R27f"):
+    """A vote is counted only for the election it was requested in: the Leader transition of vote_received is
+    reachable only on an edge implying request.term == self.term, in vote_received itself or at each of its call sites."""
+    fa = ctx.facts
+    b = ctx.anchor(rule, CL + "vote_received")
+    if not b:
+        return
+    eff = [bi for bb_, bi, kind, var in state_writes(fa) if bb_ is b and kind == "assign" and var == "Leader"]
+    permit = edges_implying(cmp_edges(fa, b), "request.term", "self.term", "==")
+    inside = bool(eff and permit) and cfg.find_path(b, [0], eff, removed_edges=[e for d, e in permit]) is None
+    sites = common.callers_of(fa, CL + "vote_received", "agdb_server")
+    at_sites = bool(sites)
+    for cb, j, tj in sites:
+        pe = edges_implying(cmp_edges(fa, cb), "request.term", "self.term", "==")
+        sy = Sym(fa, cb)
+        if not (pe and [sy.op(a) for a in tj["a"][:2]] == ["self", "request"] and
+                cfg.find_path(cb, [0], [j], removed_edges=[e for d, e in pe]) is None):
+            at_sites = False
+    ok = inside or at_sites
+    ctx.ob(rule, "vote_received:votes-of-this-election", ok,
+           "a vote response is counted only when request.term == self.term" if ok else
+           "vote_received marks `voted` and counts the majority for ANY Vote/Ok response that arrives while the node is "
+           "Candidate: a vote granted for an earlier election of this node (request.term < self.term, response delayed) is "
+           "counted in the current one, although the voter is free to vote for somebody else in the current term. "
+           "In a 5-node cluster the candidate becomes leader of term T with {self, one vote of term T, one stale vote of "
+           "term T-1} while the stale voter and a fourth node elect another leader of term T (F20, reproduced; independent "
+           "of F17). Accepted: an equality test request.term == self.term guarding the Leader transition in vote_received or "
+           "every call of vote_received (e.g. a guard on the `(Candidate, Vote, OK)` arm of response())",
+           b.where, key="%s|%s|%s|stale-vote-counted" % (ctx.pid, rule, CL + "vote_received"))
+
+
 def run(ctx):
     rule_grant_dominated(ctx, "R27a", ["validate_hash", "validate_vote_state", "validate_term_for_vote", "validate_log_for_vote"])
     rule_reject_tables(ctx)
     rule_majority(ctx)
     rule_who_leader(ctx)
     rule_vote_durable(ctx)
+    rule_votes_of_this_election(ctx)
     return 0
